@@ -164,6 +164,7 @@ theorem handleRequest_bystander (cfg : Config) {srv : Server} (hw : WFc srv) {cn
   dsimp only
   split
   · exact closeConn_mem_other hm hl
-  · rw [setMode_sessions]; exact hm
+  · show x ∈ (setMode srv1 cn.id res.err).sessions
+    rw [setMode_sessions]; exact hm
 
 end Rtsp.Sess
